@@ -255,7 +255,11 @@ def x_tree(ctx, case):
         ctx.count("mon:filter.grouping-preserved")
     # every removed test leaves its own new, empty TestSuite: using one as the suite it is documented
     # to be must not show up anywhere else (here, or in the result of another filter_by_ids call)
-    other = filter_by_ids(build(tree, cls, []), ids_arg)
+    try:
+        other = filter_by_ids(build(tree, cls, []), ids_arg)
+    except Exception as e:  # noqa - in-domain arguments: that is the violation
+        ctx.check(False, "filter.exactly-the-chosen-in-order", lambda: {"filter_by_ids raised": repr(e), **detail()})
+        return True
 
     def empties(obj, acc):
         try:
@@ -508,6 +512,13 @@ def x_run(ctx, case):
                 finally:
                     result.stopTestRun()
         runner_kw = {"testRunner": BareRunner}
+        if case["bare_runner"] == "no_tb_locals":
+            class OlderRunner(BareRunner):
+                """... written against the contract before tb_locals was added: it still takes (and is given) stdout."""
+
+                def __init__(self, verbosity=None, failfast=None, buffer=None, stdout=None):
+                    self.stdout = stdout
+            runner_kw = {"testRunner": OlderRunner}
     d = tempfile.mkdtemp(prefix="tvm-c19-")
     try:
         if case.get("after_failed_import"):
@@ -695,7 +706,47 @@ def x_iter_special(ctx, case):
     return True
 
 
-SUBCHECKS = {"tree": x_tree, "run": x_run, "subprocess": x_subprocess, "discover": x_discover,
+def x_grow(ctx, case):
+    """A suite that is sorted, then grows (tests discovered later are added), then is sorted again - what a loader
+    that sorts after every batch does: each time the result is every test it holds NOW, by id; a custom suite inside
+    is sorted inside again; a duplicate that arrived with the second batch raises ValueError."""
+    import fixtures
+    from testtools import PlaceHolder, iterate_tests
+    from testtools.testsuite import FixtureSuite, sorted_tests
+    first, second = case["first"], case["second"]
+    inner = FixtureSuite(fixtures.Fixture(), [PlaceHolder(i) for i in first]) if case["kind"] == "fixture" \
+        else unittest.TestSuite([PlaceHolder(i) for i in first])
+    top = unittest.TestSuite([inner])
+
+    def attempt():
+        try:
+            return [t.id() for t in iterate_tests(sorted_tests(top))], None
+        except ValueError as e:
+            return None, e
+    got1, err1 = attempt()
+    dup1 = len(set(first)) != len(first)
+    ctx.check((err1 is not None) == dup1, "sorted.valueerror-iff-duplicate",
+              lambda: {"case": case, "first pass raised": repr(err1)})
+    if dup1:
+        return True
+    ctx.check(got1 == sorted(first), "sorted.ordered-by-id", lambda: {"case": case, "first pass": got1})
+    for i in second:
+        inner.addTest(PlaceHolder(i))
+    got2, err2 = attempt()
+    dup2 = len(set(first + second)) != len(first + second)
+    ctx.check((err2 is not None) == dup2, "sorted.valueerror-iff-duplicate",
+              lambda: {"case": case, "after the suite grew: raised": repr(err2), "duplicates": dup2})
+    if not dup2 and err2 is None:
+        ctx.check(got2 == sorted(first + second), "sorted.ordered-by-id",
+                  lambda: {"case": case, "after the suite grew": got2, "want": sorted(first + second)})
+        if case["kind"] == "fixture":
+            inside = [t.id() for t in iterate_tests(inner)]
+            ctx.check(inside == sorted(inside), "sorted.sort_tests-honoured",
+                      lambda: {"case": case, "inside the FixtureSuite after the second pass": inside})
+    return True
+
+
+SUBCHECKS = {"grow": x_grow, "tree": x_tree, "run": x_run, "subprocess": x_subprocess, "discover": x_discover,
              "iter_special": x_iter_special}
 
 # (U+2028 and form feed are line breaks to str.splitlines() but not to a bytes-wise readlines(); they are
@@ -762,6 +813,17 @@ def fresh_ids(rng):
 def run(ctx):
     rng = ctx.rng
     n = 0
+    for i in range(ctx.scale(300, 20000)):
+        pool = rng.sample(["a", "b", "c", "d", "e", "0", "zz", "a.b", "B"], rng.randint(2, 7))
+        k = rng.randint(1, len(pool) - 1)
+        first, second = pool[:k], pool[k:]
+        if rng.random() < 0.3:
+            second.append(rng.choice(first))         # the second batch brings a duplicate of an earlier test
+        rng.shuffle(first)
+        n += 1
+        ctx.execute("grow", {"kind": rng.choice(["fixture", "fixture", "plain"]), "first": first, "second": second})
+    ctx.note_space("sorted, grown, sorted again: random batches of ids into a FixtureSuite / a plain suite (random)", n, False)
+    n = 0
     for shape in enum_trees(4 if ctx.quick else 5):
         if not ctx.mine():
             continue
@@ -812,7 +874,7 @@ def run(ctx):
         rng.shuffle(keep)
         ctx.execute("run", {"tree": tree, "keep": keep, "style": rng.randrange(6),
                             "after_failed_import": rng.random() < 0.3, "via_load_tests": rng.random() < 0.4,
-                            "bare_runner": rng.random() < 0.3, "falsy_stdout": rng.random() < 0.3,
+                            "bare_runner": rng.choice([False, False, False, False, True, True, "no_tb_locals"]), "falsy_stdout": rng.random() < 0.3,
                             "module_as": rng.choice([None, None, "name", "dotted"])})
     for how in ("shared", "wrapping"):
         for k in (1, 2, 3, 6, 12):
